@@ -8,7 +8,7 @@ Monitors (implementation only, property text): steady windows => average within 
 windows => within 1 of -k and the sum within 1 of 0 (EVERY pair of window sums of the steady bands for
 every k in -7..=7 is driven through the real code); the estimate lands within one frame of -k for
 latencies 0..=100 ms at 30/60/120 fps; nothing in that range panics."""
-import json, struct
+import json, os, struct
 from . import core
 
 W_FALLBACK = 30
@@ -296,8 +296,13 @@ def run(ctx):
     from . import families as F
     from .simrun import run_scenarios
     run_scenarios(ctx, F.fam_ping(ctx.rng, 400 if ctx.thorough else 70), {"C15", "PANIC"}, "ping")
-    run_scenarios(ctx, F.fam_lead(ctx.rng, 100 if ctx.thorough else 12), {"C15", "PANIC"}, "lead")
-    run_scenarios(ctx, F.fam_lead_wave(ctx.rng, 400 if ctx.thorough else 50), {"C15", "PANIC"}, "lead_wave")
+    os.environ["VERIF_GATE_TRACE"] = "1"
+    try:
+        res_wave = run_scenarios(ctx, F.fam_lead_wave(ctx.rng, 400 if ctx.thorough else 50), {"C15", "PANIC"}, "lead_wave")
+        res_lead = run_scenarios(ctx, F.fam_lead(ctx.rng, 100 if ctx.thorough else 12), {"C15", "PANIC"}, "lead")
+    finally:
+        os.environ.pop("VERIF_GATE_TRACE", None)
+    gate_correspondence(ctx, [res_wave, res_lead])
 
     ctx.cov["exhaustive"] = False
     ctx.cov["rule"] = ("windows: for every lead k in -7..=7 EVERY pair (local sum, remote sum) of the steady bands "
@@ -315,6 +320,41 @@ def run(ctx):
         "the link model (what last_recv_frame is relative to the remote's current frame) enters C15_estimate_band as a hypothesis; the session-level tick pattern is checked elsewhere",
         "usize is 64 bit (frame as usize)",
     ]
+
+def gate_correspondence(ctx, results):
+    """The recommendation gate of the Coq model (TimeSync.gate_step, the function C15_gate_value / C15_gate_spacing
+    are about) against the real sessions: every successful advance_frame of every rollback-mode peer of the
+    lead / lead_wave scenarios is one gate call (current_frame(), frames_ahead() as read right after it, and the
+    WaitRecommendation it queued or none); the model replays each peer's call sequence from gate_init and must
+    take the same decision with the same skip_frames at every call."""
+    script, want, where = [], [], []
+    for res in results:
+        for name in sorted(res):
+            for l in res[name]["stat"]:
+                t = l.split()
+                if len(t) < 4 or not t[2].startswith("gate="):
+                    continue
+                script.append("gnew"); want.append("ok"); where.append((name, t[2][5:], None))
+                for ent in t[3:]:
+                    cf, fa, w = ent.split(":")
+                    script.append("gate %s %s" % (cf, fa)); want.append("none" if w == "-" else "wait " + w)
+                    where.append((name, t[2][5:], ent))
+    st = ctx.cov["correspondence"].setdefault("wait-gate/debug", {"ops": 0, "disagreements": 0, "skipped_for_model": 0, "recommendations": 0, "peers": 0})
+    if not script:
+        ctx.corr_failures.append({"what": "correspondence wait-gate: the simulation produced no gate trace (VERIF_GATE_TRACE)"})
+        return
+    model = ctx.run_model("timesync", script, "debug")
+    for op, a, b, w in zip(script, want, model, where):
+        st["ops"] += 1
+        st["peers"] += op == "gnew"
+        st["recommendations"] += a.startswith("wait")
+        if a != b:
+            st["disagreements"] += 1
+            if len(ctx.corr_failures) < 50:
+                ctx.corr_failures.append({"what": "correspondence wait-gate/debug", "op": op, "impl": a, "model": b,
+                                          "scenario": w[0], "peer": w[1]})
+    ctx.cov["input_distribution"]["gate_calls"] = st["ops"] - st["peers"]
+    ctx.cov["input_distribution"]["gate_recommendations"] = st["recommendations"]
 
 def replay(ctx, path):
     body = json.load(open(path))
